@@ -131,6 +131,9 @@ func TestExplore(t *testing.T) {
 			st.ChainEvents += len(seqv)
 		}
 	}
+	if _, ran := st.PerSystem[all[10].Name()]; ran && nexusHits.Load() == 0 {
+		t.Fatalf("INFRA: the walled-garden systems never asked the fake Nexus for an allocation")
+	}
 	if err := core.WriteJSON(out, "bundle.json", bundle); err != nil {
 		t.Fatal(err)
 	}
